@@ -41,6 +41,7 @@ func (s *Stream) safeSendToDataChan(data map[string]any) bool {
 	}
 	select {
 	case s.dataChan <- data:
+		s.signalData()
 		return true
 	default:
 		return false
